@@ -1518,6 +1518,26 @@ class SX:
                 res.append((s, self.subscript(base, idx, s, frame, n)))
             return res
         if isinstance(n, ast.Slice):
+            if self.eval_comprehensions and any(b is not None and not isinstance(b, ast.Constant) and not (
+                    isinstance(b, ast.UnaryOp) and isinstance(b.operand, ast.Constant)) for b in (n.lower, n.upper, n.step)):
+                # bounds that are expressions over concrete loop counters (`names[position + 1:]`): folded to numbers when they are
+                parts = []
+                for b in (n.lower, n.upper, n.step):
+                    if b is None:
+                        parts.append('')
+                        continue
+                    try:
+                        rs = self.eval_x(b, st.copy(), frame)
+                    except CannotDecide:
+                        rs = []
+                    if len(rs) == 1 and not isinstance(rs[0], Outcome) and isinstance(rs[0][1], N) and rs[0][1].term.is_const() \
+                            and rs[0][1].term.const_value().denominator == 1:
+                        parts.append(str(int(rs[0][1].term.const_value())))
+                    else:
+                        parts = None
+                        break
+                if parts is not None:
+                    return [(st, Unk('slice:' + ':'.join(parts if n.step is not None else parts[:2])))]
             return [(st, Unk('slice:' + ast.unparse(n)))]
         if isinstance(n, (ast.ListComp, ast.GeneratorExp)) and self.eval_comprehensions:
             return self.comprehension(n, st, frame)
